@@ -2,10 +2,17 @@
 use crate::gen::Case;
 use crate::rng::Rng;
 
-pub fn n_cases(_prop: &str, _tier: &str) -> usize {
-    0
+pub fn n_cases(prop: &str, tier: &str) -> usize {
+    match prop {
+        "C13" | "C18" => crate::props_set::n_cases(prop, tier),
+        _ => 0,
+    }
 }
 
-pub fn gen_case(prop: &str, _tier: &str, _rng: &mut Rng, _idx: usize) -> Case {
-    panic!("no generator for property {prop}");
+pub fn gen_case(prop: &str, tier: &str, rng: &mut Rng, idx: usize) -> Case {
+    match prop {
+        "C13" => crate::props_set::c13(rng, tier, idx),
+        "C18" => crate::props_set::c18(rng, tier, idx),
+        _ => panic!("no generator for property {prop}"),
+    }
 }
